@@ -12,9 +12,11 @@ package sensors
 
 // ---- hwmon ---------------------------------------------------------------------------------------
 //@ func (*HwmonSensor).GetId
+//@   params (sensor)
 //@   ensures result == sensor.Config.ID
 //@   modifies nothing
 //@ func (*HwmonSensor).GetValue
+//@   params (sensor)
 //@   returns (result, err)
 //@   ghostret lastValue := result
 //@   ensures same(lastValue, result)
@@ -24,19 +26,23 @@ package sensors
 //@   ensures[C08.value]     err == nil ==> real(result) == real(fileInt[sensor.Input]) || !(-9007199254740992 <= fileInt[sensor.Input] && fileInt[sensor.Input] <= 9007199254740992)
 //@   modifies lastReadFailed, lastValue
 //@ func (*HwmonSensor).GetMovingAvg
+//@   params (sensor)
 //@   ghostret lastAvgRead := avg
 //@   ensures same(lastAvgRead, avg)
 //@   ensures same(avg, sensor.MovingAvg)
 //@   modifies lastAvgRead
 //@ func (*HwmonSensor).SetMovingAvg
+//@   params (sensor, avg)
 //@   ensures same(sensor.MovingAvg, avg)
 //@   modifies sensor.MovingAvg
 
 // ---- file ----------------------------------------------------------------------------------------
 //@ func (*FileSensor).GetId
+//@   params (sensor)
 //@   ensures result == sensor.Config.ID
 //@   modifies nothing
 //@ func (*FileSensor).GetValue
+//@   params (sensor)
 //@   ghostret lastValue := result
 //@   ensures same(lastValue, result)
 //@   props C08
@@ -46,19 +52,23 @@ package sensors
 //@   ensures[C08.finite]    err == nil ==> fin(result)
 //@   modifies lastReadFailed, lastValue
 //@ func (*FileSensor).GetMovingAvg
+//@   params (sensor)
 //@   ghostret lastAvgRead := avg
 //@   ensures same(lastAvgRead, avg)
 //@   ensures same(avg, sensor.MovingAvg)
 //@   modifies lastAvgRead
 //@ func (*FileSensor).SetMovingAvg
+//@   params (sensor, avg)
 //@   ensures same(sensor.MovingAvg, avg)
 //@   modifies sensor.MovingAvg
 
 // ---- cmd -----------------------------------------------------------------------------------------
 //@ func (*CmdSensor).GetId
+//@   params (sensor)
 //@   ensures result == sensor.Config.ID
 //@   modifies nothing
 //@ func (*CmdSensor).GetValue
+//@   params (sensor)
 //@   ghostret lastValue := result
 //@   ensures same(lastValue, result)
 //@   props C08 C19
@@ -67,29 +77,35 @@ package sensors
 //@   ensures[C08.finite]    err == nil ==> fin(result)
 //@   modifies procWorld, started, lastValue
 //@ func (*CmdSensor).GetMovingAvg
+//@   params (sensor)
 //@   ghostret lastAvgRead := avg
 //@   ensures same(lastAvgRead, avg)
 //@   ensures same(avg, sensor.MovingAvg)
 //@   modifies lastAvgRead
 //@ func (*CmdSensor).SetMovingAvg
+//@   params (sensor, avg)
 //@   ensures same(sensor.MovingAvg, avg)
 //@   modifies sensor.MovingAvg
 
 // ---- virtual ---------------------------------------------------------------------------------------
 //@ func (VirtualSensor).GetId
+//@   params (sensor)
 //@   modifies nothing
 //@ func (VirtualSensor).GetValue
+//@   params (sensor)
 //@   ghostret lastValue := result
 //@   ensures same(lastValue, result)
 //@   returns (result, err)
 //@   ensures err == nil && same(result, sensor.Value)
 //@   modifies lastValue
 //@ func (VirtualSensor).GetMovingAvg
+//@   params (sensor)
 //@   ghostret lastAvgRead := avg
 //@   ensures same(lastAvgRead, avg)
 //@   ensures same(avg, sensor.Value)
 //@   modifies lastAvgRead
 //@ func (*VirtualSensor).SetMovingAvg
+//@   params (sensor, avg)
 //@   ensures same(sensor.Value, avg)
 //@   modifies sensor.Value
 
@@ -97,6 +113,7 @@ package sensors
 //@ ghost var sensorReg gset[string]
 //@ ghost var sensorFinite gset[string]
 //@ opaque func GetSensor
+//@   params (id)
 //@   returns (s, ok)
 //@   ensures id in sensorReg ==> ok && sensorWF(s)
 //@   ensures id in sensorReg && id in sensorFinite ==> fin(avgOf(s))
@@ -104,6 +121,7 @@ package sensors
 //@   trusted "registry lookup (concurrent map): a registered id yields its well-formed sensor object"
 
 //@ func NewSensor
+//@   params (config)
 //@   returns (sensor, err)
 //@   ensures err == nil ==> sensor != nil && sensorWF(sensor)
 //@   modifies nothing
